@@ -55,6 +55,8 @@ pub enum Act {
     Borrow { u: usize, b: usize, amt: u64 },
     Repay { u: usize, b: usize, amt: u64, all: bool },
     Accrue { b: usize },
+    /// anyone refreshes the bank's cached oracle price (lending_pool_pulse_bank_price_cache)
+    PulsePrice { b: usize },
     CollectFees { b: usize },
     CloseBalance { u: usize, b: usize },
     /// the group admin re-tags a bank between the default and SOL classes (lending_pool_configure_bank)
@@ -248,6 +250,7 @@ impl Scen {
             8..=10 => Act::Withdraw { u, b, amt, all: rng.chance(1, 5) },
             11..=13 => Act::Borrow { u, b, amt },
             14..=16 => Act::Repay { u, b, amt, all: rng.chance(1, 5) },
+            17 if rng.chance(1, 3) => Act::PulsePrice { b },
             17 => Act::Accrue { b },
             18 => Act::CollectFees { b },
             19 if rng.chance(1, 4) => Act::CloseAccount { u },
@@ -301,6 +304,15 @@ impl Scen {
                 ix::borrow(&self.banks[*b], us.acct, us.wallet, us.toks[*b], *amt, risk)
             }
             Act::Accrue { b } => ix::accrue(&self.banks[*b]),
+            Act::PulsePrice { b } => {
+                use anchor_lang::{InstructionData, ToAccountMetas};
+                let h = &self.banks[*b];
+                solana_program::instruction::Instruction {
+                    program_id: marginfi::ID,
+                    accounts: [marginfi::accounts::LendingPoolPulseBankPriceCache { group: h.group, bank: h.bank }.to_account_metas(None), self.w.oracle_metas_for(&h.bank)].concat(),
+                    data: marginfi::instruction::LendingPoolPulseBankPriceCache {}.data(),
+                }
+            }
             Act::CollectFees { b } => {
                 let fee_ata = self.w.ata(&self.fee_wallet, &self.banks[*b].mint);
                 ix::collect_fees(&self.banks[*b], fee_ata)
@@ -479,6 +491,38 @@ impl Scen {
             expect.config.asset_tag = *tag;
             if post != expect {
                 rep.fail(format!("C12 re-tagging bank {} changed more than the asset tag; hist {:?}", b, self.hist));
+            }
+            return;
+        }
+        if let Act::PulsePrice { b } = act {
+            // the permissionless price-cache crank writes the cache and nothing else; in particular it must not move the
+            // bank's accrual clock (`last_update`): the interest between the old stamp and the new one would never be booked
+            let pre = pre_banks[*b];
+            let post = self.w.bank(&self.banks[*b].bank);
+            if post.last_update != pre.last_update {
+                use marginfi::state::bank::BankImpl;
+                let mut expect = pre;
+                let g = self.w.group(&self.group);
+                crate::world::install_stubs();
+                let _ = expect.accrue_interest(post.last_update, &g, self.banks[*b].bank);
+                if fx(expect.liability_share_value) != fx(post.liability_share_value) || fx(expect.asset_share_value) != fx(post.asset_share_value) {
+                    rep.fail(format!(
+                        "C06 the price-cache crank moved bank {}'s accrual clock from {} to {} without accruing: share values stay ({}, {}) where accruing that period gives ({}, {}) - the interest of {} s is never booked; hist {:?}",
+                        b, pre.last_update, post.last_update, fx(post.asset_share_value), fx(post.liability_share_value), fx(expect.asset_share_value), fx(expect.liability_share_value),
+                        post.last_update - pre.last_update, self.hist
+                    ));
+                }
+            }
+            let mut p = post;
+            p.cache = pre.cache;
+            p.last_update = pre.last_update;
+            if p != pre {
+                rep.fail(format!("C08 the price-cache crank changed more of bank {} than its cache; hist {:?}", b, self.hist));
+            }
+            for (bi, h) in self.banks.iter().enumerate() {
+                if bi != *b && self.w.bank(&h.bank) != pre_banks[bi] {
+                    rep.fail(format!("C08 bank {} changed by the price-cache crank of another bank; hist {:?}", bi, self.hist));
+                }
             }
             return;
         }
